@@ -8,6 +8,20 @@ single-point mutant of the cdef over a fixed operator alphabet is built against
 the same source: using the mutated item must raise iff gcc says the mutation
 changes a checked fact; every unmutated item of the same module must keep
 working; the same mutation under '...' must be silent and yield gcc's layout.
+
+Families added after the audit (.cache/audit/C12.md), all enumerated exhaustively:
+  * anonymous struct/union members (6 kinds: struct and union member, two levels, first / last / only member,
+    inside a union, a bitfield carrier next to a plain one, inside a '...;' struct); the operators also work
+    inside the member, unwrap it and flip it between struct and union.  A mismatch of such a struct that
+    goes unnoticed carries anonymous_member=True in its signature;
+  * a struct known only through 'typedef struct {...} *p;' (with a long double member);
+  * the '[...]' kinds s_dots / s_dots2 (two dimensions) under selection, item retypes, re-spellings, fixed lengths;
+  * bitfields of _Bool / long long:40 / unsigned char / an enum type, and bitfields in a union;
+  * eleven 'static const <type> K = v;' over eight integer types at the types' boundaries;
+  * more uses of a mismatching struct (alignof, T[2], from_buffer, addressof(global), the by-value call wrappers,
+    an outer struct that holds it by value);
+  * part 'misc': variadic functions, globals of function-pointer / pointer / open array / '[...]' (1 and 2
+    dimensions) type, non-integer constants, a macro and a static inline declared as functions, 'typedef ... *p'.
 """
 import ctypes
 import importlib.util
@@ -27,14 +41,22 @@ META = dict(
     technique="one universe module checked fact-by-fact against a gcc reference program and ctypes, plus exhaustive "
               "single-point cdef mutants (swap / retype / remove / add / pack flip / value +-1 / negate / 2^64 wrap) "
               "each built against the same C source, with gcc deciding whether the mutant changes a checked fact",
-    text="Every declared item of a 334-name universe (31 primitives as global, constants, function result and "
-         "argument; 16 struct/union kinds each declared 12 times (tag + 11 typedef aliases); 10 enums; 18 integer "
-         "constants; typedef chain) is compared with gcc's facts and "
+    text="Every declared item of a 436-name universe (31 primitives as global, constants, function result and "
+         "argument; 28 struct/union kinds each declared 12 times (tag + 11 typedef aliases) -- among them 6 kinds with "
+         "anonymous struct/union members (flattened, two levels, bitfield carrier, inside a union, inside a '...;' "
+         "struct), a struct known only through a pointer typedef, '[...]' arrays in one and two dimensions, bitfields "
+         "of _Bool / long long / enum type and in a union; 10 enums; 29 integer constants incl. 'static const' over "
+         "8 integer types at their boundaries; typedef chain; a part 'misc' with variadic functions, function-pointer / "
+         "pointer / open-array / '[...]' globals, non-integer constants, macro and static-inline functions, "
+         "'typedef ... *p') is compared with gcc's facts and "
          "with the module's memory through ctypes.  Every single-point mutant of every struct, enumerator and integer "
-         "constant is compiled (batched, independent items per module): the mutated item must raise on every use when "
+         "constant is compiled (batched, independent items per module): the mutated item must raise on every use "
+         "(sizeof, alignof, new, T[2], offsetof, .fields, field access through cast / from_buffer / global / "
+         "addressof / pointer result / by-value result, by-value argument, an outer struct holding it) when "
          "gcc's layout of the mutated declaration differs in a field offset, field size or total size (or the value "
          "differs), every other item of the module must behave as in the base module, and the '...' variant of the "
-         "mutant must be silent and give gcc's layout/values.",
+         "mutant must be silent and give gcc's layout/values.  The operators also act inside anonymous members, unwrap "
+         "them and flip them between struct and union.",
     note="gcc 12 on this machine is the authority for facts; ctypes.CDLL on the built extension is the independent "
          "channel to its memory and C helpers; generated modules are compiled with -O0 -g0 to fit the budget")
 
@@ -115,6 +137,33 @@ class Env(object):
 
 def _exc(e):
     return "%s: %s" % (type(e).__name__, str(e)[:200])
+
+
+def s_ctype(ffi, s, slot):
+    """The ctype of declaration `slot` of struct kind s (lazy: does not look at the fields)."""
+    name = U.slot_tname(s, slot)
+    if s.get("via_pointer"):
+        return ffi.typeof(name).item          # known only as 'typedef struct {...} *name;'
+    return ffi.typeof(name)
+
+
+def p_ctype(ffi, s, slot):
+    """The pointer-to-struct ctype."""
+    name = U.slot_tname(s, slot)
+    if s.get("via_pointer"):
+        return ffi.typeof(name)
+    return ffi.typeof(name + " *")
+
+
+def flat_ctype_fields(ct, base=0, out=None):
+    """{leaf name: (offset from the start of ct, field)}; members with an empty name are expanded."""
+    out = {} if out is None else out
+    for n, fld in ct.fields:
+        if n == "":
+            flat_ctype_fields(fld.type, base + fld.offset, out)
+        else:
+            out[n] = (base + fld.offset, fld)
+    return out
 
 
 class Probs(list):
@@ -245,21 +294,23 @@ def _set_path(obj, path, v):
 def chk_struct_layout(env, s, fields, pr, slot=0):
     ffi, facts = env.ffi, env.facts
     T = U.slot_tname(s, slot)
+    ct = s_ctype(ffi, s, slot)
     tag = s["tag"]
     size, align = facts["S"][tag]
-    pr.eq("sizeof", ffi.sizeof(T), size, type=T)
-    pr.eq("alignof", ffi.alignof(T), align, type=T)
-    flds = dict(ffi.typeof(T).fields)
-    pr.eq("field-names", sorted(flds), sorted(f["name"] for f in fields), type=T)
-    for f in fields:
+    pr.eq("sizeof", ffi.sizeof(ct), size, type=T)
+    pr.eq("alignof", ffi.alignof(ct), align, type=T)
+    flds = flat_ctype_fields(ct)
+    leaves = list(U.flat_fields(fields))       # anonymous members: their leaves, by their own names
+    pr.eq("field-names", sorted(flds), sorted(f["name"] for f in leaves), type=T)
+    for f in leaves:
         if f["kind"] == "bits" or f["name"] not in facts["F"][tag]:
             continue
         off, fsz = facts["F"][tag][f["name"]]
-        pr.eq("offsetof", ffi.offsetof(T, f["name"]), off, type=T, field=f["name"])
+        pr.eq("offsetof", ffi.offsetof(ct, f["name"]), off, type=T, field=f["name"])
         if f["name"] in flds:
-            pr.eq("field-offset", flds[f["name"]].offset, off, type=T, field=f["name"])
+            pr.eq("field-offset", flds[f["name"]][0], off, type=T, field=f["name"])
             if fsz >= 0 and f["kind"] != "flex":
-                pr.eq("field-size", ffi.sizeof(flds[f["name"]].type), fsz, type=T, field=f["name"])
+                pr.eq("field-size", ffi.sizeof(flds[f["name"]][1].type), fsz, type=T, field=f["name"])
 
 
 def chk_struct(env, s, fields, light, retyped=(), slot=0):
@@ -270,6 +321,7 @@ def chk_struct(env, s, fields, light, retyped=(), slot=0):
     pr = Probs(env)
     T = U.slot_tname(s, slot)
     tag = s["tag"]
+    vp = bool(s.get("via_pointer"))
 
     def body():
         chk_struct_layout(env, s, fields, pr, slot)
@@ -279,17 +331,20 @@ def chk_struct(env, s, fields, light, retyped=(), slot=0):
             pr.eq("pointer-result", env.addr_of(getattr(lib, "ptr_" + tag)()), addr, name="ptr_" + tag)
         if s.get("novalue"):
             if any(f["name"] == "n" for f in fields) and "n" not in retyped:
-                p = getattr(lib, "ptr_" + tag)() if slot == 0 else ffi.cast(T + " *", addr)
+                p = getattr(lib, "ptr_" + tag)() if slot == 0 else ffi.cast(p_ctype(ffi, s, slot), addr)
                 p.n = 5
                 pr.eq("write-image", ctypes.string_at(addr, 4), (5).to_bytes(4, "little"), type=T, field="n")
             return
-        if slot == 0:
+        if vp:
+            # the struct has no name: it is reached through the pointer typedef only
+            g = getattr(lib, "ptr_" + tag)() if slot == 0 else ffi.cast(p_ctype(ffi, s, slot), addr)
+        elif slot == 0:
             pr.eq("address", env.addr_of(ffi.addressof(lib, "gs_" + tag)), addr, name="gs_" + tag)
             g = getattr(lib, "gs_" + tag)
         else:
-            g = ffi.cast(T + " *", addr)
+            g = ffi.cast(p_ctype(ffi, s, slot), addr)
         ctypes.memset(addr, 0, size)
-        for f in fields:
+        for f in U.flat_fields(fields):
             if f["name"] in retyped:
                 continue
             if f["kind"] == "bits":
@@ -339,7 +394,7 @@ def chk_struct(env, s, fields, light, retyped=(), slot=0):
                     v2, img2, nv2 = vals[(i + 1) % len(vals)]
                     ctypes.memmove(addr + off, img2, len(img2))
                     pr.eq("read-value", rd(_get_path(g, path)), nv2, type=T, path=list(path))
-        if slot != 0:
+        if slot != 0 or vp:
             return
         # by-value result and argument: compare field images with the C object
         cfields = [(n, o, z) for n, (o, z) in sorted(facts["F"][tag].items()) if z > 0]
@@ -420,6 +475,120 @@ def chk_typedefs(env):
     return pr
 
 
+def chk_misc(env):
+    """Part 'misc': a variadic function, globals of function-pointer / pointer / open-array / '[...]' array type,
+    constants of non-integer type, a macro and a static inline function declared as functions, 'typedef ... *p'."""
+    ffi, lib, facts = env.ffi, env.lib, env.facts
+    pr = Probs(env)
+    X, XS = facts["X"], facts["XS"]
+
+    def I(k):
+        return int(X[k])
+
+    def Fl(k):
+        return float.fromhex(X[k])
+
+    def mem(addr, n):
+        return ctypes.string_at(addr, n)
+
+    def body():
+        ci = lambda v: ffi.cast("int", v)
+        # variadic functions (emitted as constant function pointers, no wrapper)
+        pr.eq("call-result", lib.vsum(3, ci(1), ci(2), ci(4)), I("vsum"), name="vsum")
+        pr.eq("call-result", lib.vsum(0), I("vsum0"), name="vsum")
+        sh = ffi.new("short *", -9)
+        pr.eq("call-result", lib.vmix(b"ildp", ci(-5), ffi.cast("long long", 1 << 40), ffi.cast("double", 0.25), sh), Fl("vmix"), name="vmix")
+        # global of function-pointer type
+        a_fp = env.caddr("addr_g_fp")
+        dbl, neg = env.caddr("addr_misc_dbl"), env.caddr("addr_misc_neg")
+        pr.eq("address", env.addr_of(ffi.addressof(lib, "g_fp")), a_fp, name="g_fp")
+        pr.eq("read-value", env.addr_of(lib.g_fp), dbl, name="g_fp")
+        pr.eq("call-result", lib.g_fp(21), I("g_fp"), name="g_fp")
+        lib.g_fp = ffi.cast("int(*)(int)", neg)
+        pr.eq("write-image", mem(a_fp, 8), neg.to_bytes(8, "little"), name="g_fp")
+        env.cd.call_g_fp.restype = ctypes.c_int
+        env.cd.call_g_fp.argtypes = [ctypes.c_int]
+        pr.eq("write-seen-by-C", env.cd.call_g_fp(21), -21, name="g_fp")
+        pr.eq("call-result", lib.call_g_fp(5), -5, name="call_g_fp")
+        ctypes.memmove(a_fp, dbl.to_bytes(8, "little"), 8)
+        pr.eq("read-value", env.addr_of(lib.g_fp), dbl, name="g_fp")
+        # global of pointer type
+        a_str, buf = env.caddr("addr_g_str"), env.caddr("addr_g_strbuf")
+        pr.eq("address", env.addr_of(ffi.addressof(lib, "g_str")), a_str, name="g_str")
+        pr.eq("read-value", env.addr_of(lib.g_str), buf, name="g_str")
+        pr.eq("initial-value", ffi.string(lib.g_str).decode("latin-1"), XS["g_str"], name="g_str")
+        lib.g_str = ffi.cast("char *", buf + 1)
+        pr.eq("write-image", mem(a_str, 8), (buf + 1).to_bytes(8, "little"), name="g_str")
+        ctypes.memmove(a_str, buf.to_bytes(8, "little"), 8)
+        pr.eq("read-value", env.addr_of(lib.g_str), buf, name="g_str")
+        # 'extern int g_open[];'
+        a_open = env.caddr("addr_g_open")
+        pr.eq("address", env.addr_of(lib.g_open), a_open, name="g_open")
+        pr.eq("address", env.addr_of(ffi.addressof(lib, "g_open")), a_open, name="&g_open")
+        for i in range(I("len_g_open")):
+            pr.eq("initial-value", lib.g_open[i], I("g_open[%d]" % i), name="g_open", index=i)
+        lib.g_open[1] = -77
+        pr.eq("write-image", mem(a_open + 4, 4), (-77 & 0xFFFFFFFF).to_bytes(4, "little"), name="g_open")
+        ctypes.memmove(a_open + 4, I("g_open[1]").to_bytes(4, "little"), 4)
+        pr.eq("read-value", lib.g_open[1], I("g_open[1]"), name="g_open")
+        # 'extern int g_dots[...];'  the length is the compiler's
+        a_dots = env.caddr("addr_g_dots")
+        n = I("len_g_dots")
+        pr.eq("array-length", len(lib.g_dots), n, name="g_dots")
+        pr.eq("sizeof", ffi.sizeof(lib.g_dots), 4 * n, name="g_dots")
+        pr.eq("address", env.addr_of(lib.g_dots), a_dots, name="g_dots")
+        pr.eq("address", env.addr_of(ffi.addressof(lib, "g_dots")), a_dots, name="&g_dots")
+        for i in range(n):
+            pr.eq("initial-value", lib.g_dots[i], I("g_dots[%d]" % i), name="g_dots", index=i)
+        lib.g_dots[n - 1] = 123456
+        pr.eq("write-image", mem(a_dots + 4 * (n - 1), 4), (123456).to_bytes(4, "little"), name="g_dots")
+        ctypes.memmove(a_dots + 4 * (n - 1), I("g_dots[%d]" % (n - 1)).to_bytes(4, "little"), 4)
+        try:
+            lib.g_dots[n]
+            pr.append(("array-length-not-enforced", {"name": "g_dots", "index": n}))
+        except IndexError:
+            pass
+        # two dimensions: 'extern short g_m[2][...];'  'extern long long g_m2[...][...];'
+        for nm, isz in (("g_m", 2), ("g_m2", 8)):
+            a = env.caddr("addr_" + nm)
+            g = getattr(lib, nm)
+            n0, n1 = I("len0_" + nm), I("len1_" + nm)
+            pr.eq("array-length", len(g), n0, name=nm)
+            pr.eq("array-length", len(g[0]), n1, name=nm + "[0]")
+            pr.eq("sizeof", ffi.sizeof(g), I("size_" + nm), name=nm)
+            pr.eq("address", env.addr_of(g), a, name=nm)
+            pr.eq("address", env.addr_of(g[n0 - 1]), a + (n0 - 1) * n1 * isz, name=nm + "[last]")
+            g[n0 - 1][n1 - 1] = -5
+            pr.eq("write-image", mem(a + (n0 * n1 - 1) * isz, isz), (-5 & ((1 << (8 * isz)) - 1)).to_bytes(isz, "little"),
+                  name=nm)
+            ctypes.memmove(a + (n0 * n1 - 1) * isz, (6 if nm == "g_m" else 0).to_bytes(isz, "little"), isz)
+        for i in range(2):
+            for j in range(3):
+                pr.eq("initial-value", lib.g_m[i][j], I("g_m[%d][%d]" % (i, j)), name="g_m", index=[i, j])
+        # constants of non-integer type
+        pr.eq("constant", U.norm(lib.K_PI), U.norm(Fl("K_PI")), name="K_PI")
+        pr.eq("constant", U.norm(lib.K_F), U.norm(Fl("K_F")), name="K_F")
+        pr.eq("constant", ffi.string(lib.g_ccs).decode("latin-1"), XS["g_ccs"], name="g_ccs")
+        pr.eq("address", env.addr_of(lib.g_ccs), env.caddr("addr_g_ccs_target"), name="g_ccs")
+        ks = lib.K_S
+        pr.eq("constant", [ord(ks.a), ks.b, ks.c, ks.d], [I("K_S.a"), I("K_S.b"), I("K_S.c"), I("K_S.d")], name="K_S")
+        pr.eq("sizeof", ffi.sizeof(ks), facts["S"]["s_plain"][0], name="K_S")
+        # a macro and a static inline function, declared as functions
+        pr.eq("call-result", lib.mac_add(3, 4), I("mac_add"), name="mac_add")
+        pr.eq("call-result", lib.inl_neg(3), I("inl_neg"), name="inl_neg")
+        # 'typedef ... *opq_p;'
+        pr.eq("pointer-result", env.addr_of(lib.get_opq_p()), env.caddr("addr_the_opq2"), name="get_opq_p")
+        pr.eq("call-result", lib.opq_p_get(lib.get_opq_p()), I("opq_p_get"), name="opq_p_get")
+        pr.eq("typedef-identity", ffi.typeof(lib.get_opq_p()) is ffi.typeof("opq_p"), True, type="opq_p")
+        try:
+            ffi.sizeof(ffi.typeof("opq_p").item)
+            pr.append(("opaque-has-size", {"type": "*opq_p"}))
+        except Exception:
+            pass
+    pr.guard("misc", body)
+    return pr
+
+
 def chk_exposure(env):
     pr = Probs(env)
 
@@ -428,8 +597,8 @@ def chk_exposure(env):
         missing = [n for n in U.declared_names() if n not in have]
         pr.eq("exposed-names", missing, [])
         tds, sts, uns = env.ffi.list_types()
-        want = U.TYPEDEF_TYPES + ["t_anon", "te_t"] + [U.alias_name(s, k) for s in U.STRUCTS
-                                                        for k in range(1, U.NALIAS + 1)]
+        want = U.TYPEDEF_TYPES + ["te_t", "opq_p"] + [s["tag"] for s in U.STRUCTS if s.get("typedef")] + [
+            U.alias_name(s, k) for s in U.STRUCTS for k in range(1, U.NALIAS + 1)]
         pr.eq("exposed-typedefs", [t for t in want if t not in tds], [])
         pr.eq("exposed-structs", [s["tag"] for s in U.STRUCTS if s["su"] == "struct" and not s.get("typedef")
                                   and s["tag"] not in sts], [])
@@ -445,7 +614,7 @@ def all_items():
     out += [U.slot_part(s, k) for s in U.STRUCTS for k in range(U.NALIAS + 1)]
     out += ["enum:" + e["key"] for e in U.ENUMS]
     out += ["const:" + c[0] for c in U.CONSTS]
-    out += ["typedefs", "exposure"]
+    out += ["typedefs", "misc", "exposure"]
     return out
 
 
@@ -470,7 +639,7 @@ def item_deps(item):
             out |= item_deps(("struct:" if d in U.STRUCT else "enum:") + d)
         if slot and U.STRUCT[key].get("selfref"):
             out |= item_deps("struct:" + key)     # an alias holding a 'struct tag *' field uses 'struct tag'
-    if item == "typedefs":
+    if item in ("typedefs", "misc"):
         out |= item_deps("struct:s_plain")
     _deps_memo[item] = out
     return out
@@ -499,6 +668,8 @@ def check_item(env, item, light, override=None):
         return chk_const(env, U.CONST[key])
     if kind == "typedefs":
         return chk_typedefs(env)
+    if kind == "misc":
+        return chk_misc(env)
     return chk_exposure(env)
 
 
@@ -562,21 +733,18 @@ def retypes(f, quick):
     return res
 
 
-def struct_mutants(s, quick):
-    """Single-point mutants of a struct that is exact (no '...') in the base cdef."""
-    base = U.base_cdef_fields(s)
-    kw = {"packed": True} if s.get("packed") else {}
-    muts = []
-
-    def add(op, fields, expect_ce=False, kw2=None, retyped=()):
-        muts.append(dict(skind=s["tag"], item="struct", op=op, fields=fields, kw=kw if kw2 is None else kw2,
-                         expect_ce=expect_ce, retyped=list(retyped)))
+def field_variants(base, quick):
+    """Single-point variants of one field list: (op, fields, expect compile error, retyped names, inside an
+    anonymous member).  All swaps, every field retyped, every field removed; an anonymous struct/union member
+    is one field for these operators and is also unwrapped (its members put in its place), flipped between struct
+    and union, and varied inside (recursively) by the same operators."""
+    out = []
     n = len(base)
     for i in range(n):
         for j in range(i + 1, n):
             fl = list(base)
             fl[i], fl[j] = fl[j], fl[i]
-            add(["swap", base[i]["name"], base[j]["name"]], fl)
+            out.append((["swap", U.field_label(base[i]), U.field_label(base[j])], fl, False, [], False))
     for i, f in enumerate(base):
         for tmpl, extra, ce in retypes(f, quick):
             nf = dict(f)
@@ -585,10 +753,40 @@ def struct_mutants(s, quick):
             nf.update(extra)
             fl = list(base)
             fl[i] = nf
-            add(["retype", f["name"], tmpl.format(n=f["name"])], fl, expect_ce=ce, retyped=[f["name"]])
+            out.append((["retype", f["name"], tmpl.format(n=f["name"])], fl, ce, [f["name"]], False))
     if n > 1:
         for i, f in enumerate(base):
-            add(["remove", f["name"]], base[:i] + base[i + 1:])
+            out.append((["remove", U.field_label(f)], base[:i] + base[i + 1:], False, [], False))
+    for i, f in enumerate(base):
+        if f["kind"] != "anon":
+            continue
+        lab = U.field_label(f)
+        out.append((["unwrap", lab], base[:i] + list(f["sub"]) + base[i + 1:], False, [], False))
+        g = dict(f)
+        g["su"] = "union" if f["su"] == "struct" else "struct"
+        out.append((["suflip", lab], base[:i] + [g] + base[i + 1:], False, [], False))
+        for op, sub, ce, rt, _ in field_variants(f["sub"], quick):
+            g = dict(f)
+            g["sub"] = sub
+            out.append((op + ["in", lab], base[:i] + [g] + base[i + 1:], ce, rt, True))
+    return out
+
+
+def struct_mutants(s, quick):
+    """Single-point mutants of a struct that is exact (no '...') in the base cdef."""
+    base = U.base_cdef_fields(s)
+    kw = {"packed": True} if s.get("packed") else {}
+    muts = []
+
+    def add(op, fields, expect_ce=False, kw2=None, retyped=(), inner=False):
+        d = dict(skind=s["tag"], item="struct", op=op, fields=fields, kw=kw if kw2 is None else kw2,
+                 expect_ce=expect_ce, retyped=list(retyped))
+        if inner:
+            d["inner"] = True
+        muts.append(d)
+    n = len(base)
+    for op, fl, ce, rt, inner in field_variants(base, quick):
+        add(op, fl, expect_ce=ce, retyped=rt, inner=inner)
     for pos in sorted({0, n}):
         fl = list(base)
         fl.insert(pos, U.F("zz_added", "char {n}", "scalar", "char"))
@@ -610,13 +808,77 @@ def partial_struct_mutants(s):
                 sels.append([a, b])
     sels.append(list(fl))
     sels.append(list(reversed(fl)))
-    base = [f["name"] for f in U.base_cdef_fields(s)]
+    base = [U.field_label(f) for f in U.base_cdef_fields(s)]
     out = []
     for sel in sels:
-        if [f["name"] for f in sel] == base:
+        if [U.field_label(f) for f in sel] == base:
             continue
-        out.append(dict(skind=s["tag"], item="struct", op=["select"] + [f["name"] for f in sel],
+        out.append(dict(skind=s["tag"], item="struct", op=["select"] + [U.field_label(f) for f in sel],
                         fields=sel, kw={}, expect_ce=False, retyped=[], partial=True))
+    return out
+
+
+DOTS_ITEM_TYPES = ["signed char", "short", "int", "unsigned int", "long long"]
+
+
+def is_dots_kind(s):
+    return any("cdef_tmpl" in f for f in s["fields"])
+
+
+def dots_struct_mutants(s):
+    """Alternative declarations of a struct whose base cdef has a '[...]' array field (and no '...;').
+    A declaration that still contains '[...]' is partial: silent, with gcc's layout (mode 'partial'; a wrong
+    item type may be refused).  A declaration without it is exact: it must raise iff gcc's layout of it differs."""
+    fl = U.base_cdef_fields(s)
+    (di, d), = [(i, f) for i, f in enumerate(fl) if "cdef_tmpl" in f]
+    out = []
+
+    def add(op, fields, retyped=()):
+        dotted = any("..." in f.get("cdef_tmpl", "") for f in fields)
+        out.append(dict(skind=s["tag"], item="struct", op=op, fields=fields, kw={}, expect_ce=False,
+                        retyped=list(retyped), nodots=True, mode="partial" if dotted else "exact", dots_kind=True))
+    sels = [[f] for f in fl]
+    sels += [[a, b] for a in fl for b in fl if a is not b]
+    sels.append(list(reversed(fl)))
+    for sel in sels:
+        add(["select"] + [f["name"] for f in sel], sel)
+
+    def with_field(nf):
+        return fl[:di] + [nf] + fl[di + 1:]
+    dims = d["dims"]
+    rest = "".join("[%d]" % x for x in dims[1:])
+    # the item type of the '[...]' array
+    for t in DOTS_ITEM_TYPES:
+        if t == d["base"]:
+            continue
+        nf = dict(d)
+        nf["cdef_tmpl"] = "%s {n}[...]%s" % (t, rest)
+        add(["retype", d["name"], nf["cdef_tmpl"].format(n=d["name"])], with_field(nf), retyped=[d["name"]])
+    if len(dims) > 1:
+        # other spellings of the same type
+        for sfx in ("[...]" * len(dims), "[%d]" % dims[0] + "[...]" * (len(dims) - 1)):
+            nf = dict(d)
+            nf["cdef_tmpl"] = "%s {n}%s" % (d["base"], sfx)
+            add(["respell", d["name"], nf["cdef_tmpl"].format(n=d["name"])], with_field(nf))
+            if not sfx.startswith("[...]"):
+                # '[3][...]' (only an inner dimension open) as a struct field: scheduled alone, because the
+                # module fails to compile on the current tree (see judge: dots_inner_dimension_only)
+                out[-1]["expect_ce"] = True
+                out[-1]["dots_inner_only"] = True
+        # a wrong inner dimension under '[...]'
+        for nd in (dims[1] + 1, dims[1] - 1):
+            if nd >= 1:
+                nf = dict(d)
+                nf["cdef_tmpl"] = "%s {n}[...][%d]%s" % (d["base"], nd, "".join("[%d]" % x for x in dims[2:]))
+                add(["retype", d["name"], nf["cdef_tmpl"].format(n=d["name"])], with_field(nf), retyped=[d["name"]])
+    # the '[...]' replaced by a number: the right one, one more, one less
+    for n0 in (dims[0], dims[0] + 1, dims[0] - 1):
+        nf = dict(d)
+        nf.pop("cdef_tmpl")
+        nf["dims"] = (n0,) + tuple(dims[1:])
+        nf["tmpl"] = "%s {n}%s" % (d["base"], "".join("[%d]" % x for x in nf["dims"]))
+        add(["fixlen", d["name"], nf["tmpl"].format(n=d["name"])], with_field(nf),
+            retyped=[] if n0 == dims[0] else [d["name"]])
     return out
 
 
@@ -671,6 +933,8 @@ def enum_mutants(e):
 def mutant_text(m, partial):
     kind, key, slot = split_part(m["part"])
     if kind == "struct":
+        if m.get("nodots"):
+            partial = False            # a '[...]' kind: the array length is the only '...' of the declaration
         return U.slot_text(U.STRUCT[key], m["fields"], slot, partial=partial or m.get("partial", False))
     if kind == "enum":
         return U.enum_text(U.ENUM[key], m["pairs"], partial=partial)
@@ -678,6 +942,9 @@ def mutant_text(m, partial):
 
 
 QUICK_CE_PER_KIND = 1       # quick tier: mutants expected not to compile, per struct kind
+# ... and of the kinds added later only these have one in the quick tier (each costs a module of its own)
+QUICK_CE_ADDED_KINDS = ("s_anon", "np_plain")
+ADDED_KINDS = ("s_anon", "u_anon", "s_anon2", "s_anon1", "s_anonbf", "s_panon", "np_plain", "s_dots2", "s_bf2", "u_bf")
 
 
 def enumerate_mutants(quick):
@@ -691,9 +958,10 @@ def enumerate_mutants(quick):
         cnt[k] = cnt.get(k, 0) + n
     for s in U.STRUCTS:
         mine = []
-        if s.get("partial_base"):
-            if s["tag"] == "s_dots":
-                continue
+        if is_dots_kind(s):
+            for m in dots_struct_mutants(s):
+                mine.append(m)
+        elif s.get("partial_base"):
             for m in partial_struct_mutants(s):
                 m["mode"] = "partial"
                 mine.append(m)
@@ -702,18 +970,24 @@ def enumerate_mutants(quick):
             for m in struct_mutants(s, quick):
                 if m["expect_ce"]:
                     nce += 1
-                    if quick and nce > QUICK_CE_PER_KIND:
+                    if quick and (nce > QUICK_CE_PER_KIND or (s["tag"] in ADDED_KINDS and
+                                                              s["tag"] not in QUICK_CE_ADDED_KINDS)):
                         bump("bound_quick_skipped_expected_compile_errors")
                         continue
                 m["mode"] = "exact"
                 mine.append(m)
                 if m["op"][0] in ("add", "packflip"):
                     continue
-                if any(f["kind"] == "bits" for f in m["fields"]):
+                if any(f["kind"] == "bits" for f in U.flat_fields(m["fields"])):
                     bump("excluded_partial_with_bitfield")      # documented: '...;' and bitfields cannot be combined
                     continue
                 if any(f["kind"] == "flex" for f in m["fields"][:-1]):
                     bump("excluded_partial_flex_not_last")
+                    continue
+                if s.get("via_pointer"):
+                    # 'typedef struct { ...; } *p;' is refused by cffi as a whole ("is partial but has no C name"):
+                    # not a declaration the '...' half of the statement can be asked about
+                    bump("excluded_partial_pointer_typedef_unsupported")
                     continue
                 if m["expect_ce"] and quick:
                     bump("bound_quick_skipped_expected_compile_errors")
@@ -786,7 +1060,7 @@ def _gcc_run(src):
 
 
 def _decl_key(m):
-    return (m["skind"], tuple(f["tmpl"] + "|" + f["name"] for f in m["fields"]), bool(m["kw"].get("packed")))
+    return (m["skind"], tuple(U.field_text(f, True) for f in m["fields"]), bool(m["kw"].get("packed")))
 
 
 def gcc_rule(muts):
@@ -810,9 +1084,9 @@ def gcc_rule(muts):
                 owner[lineno + 1 + k] = m["id"]
             lineno += txt.count("\n")
             src.append(txt)
-            T = U.tname(s, tag)
+            T = U.ctype_expr(s, tag)
             body.append('printf("M %d %%d\\n", (int)sizeof(%s));' % (m["id"], T))
-            for f in m["fields"]:
+            for f in U.flat_fields(m["fields"]):
                 if f["kind"] == "bits":
                     continue
                 sz = "-1" if f["kind"] == "flex" else "(int)sizeof(((%s *)0)->%s)" % (T, f["name"])
@@ -865,7 +1139,8 @@ def gcc_rule(muts):
     bad_decls = {_decl_key(m) for m in smuts if m.get("gcc_rejects")}
     keep, dropped = [], []
     for m in muts:
-        if m["item"] == "struct" and not m.get("partial") and _decl_key(m) in bad_decls:
+        if m["item"] == "struct" and not m.get("partial") and _decl_key(m) in bad_decls and not (
+                m.get("dots_kind") and m["mode"] == "partial"):
             dropped.append(m)
         else:
             keep.append(m)
@@ -912,12 +1187,41 @@ def schedule(muts, cap):
 
 # ---- using a mutated item ---------------------------------------------------------------------
 
+class Accept(str):
+    """Returned by a use that did not raise but provably worked with the compiler's layout only."""
+
+
 def _try(fn):
     try:
-        fn()
+        r = fn()
     except Exception as e:
         return type(e).__name__
+    if isinstance(r, Accept):
+        return "accepted:" + r
     return None
+
+
+def _all_raise(obj, names):
+    """Read every named field of obj: raises (the last error) iff every read raises."""
+    last = None
+    for n in names:
+        try:
+            getattr(obj, n)
+        except Exception as e:
+            last = e
+            continue
+        return None
+    raise last
+
+
+def outer_kinds(key):
+    """(outer struct kind, name of its field) for the kinds that hold struct kind `key` by value."""
+    out = []
+    for o in U.STRUCTS:
+        for f in U.base_cdef_fields(o):
+            if f["kind"] == "struct" and f["sub"] == key:
+                out.append((o, f["name"]))
+    return out
 
 
 def uses_of(env, m):
@@ -927,18 +1231,72 @@ def uses_of(env, m):
     if kind == "struct":
         s = U.STRUCT[key]
         T = U.slot_tname(s, slot)
-        first = m["fields"][0]["name"]
-        last = m["fields"][-1]["name"]
-        us = [("sizeof", lambda: ffi.sizeof(T)),
-              ("new", lambda: ffi.new(T + " *")),
-              ("offsetof-first", lambda: ffi.offsetof(T, first)),
-              ("offsetof-last", lambda: ffi.offsetof(T, last)),
-              ("fields", lambda: ffi.typeof(T).fields),
-              ("cast-pointer-field", lambda: getattr(ffi.cast(T + " *", env.caddr("addr_gs_" + key)), first))]
+        vp = bool(s.get("via_pointer"))
+        names = [f["name"] for f in U.flat_fields(m["fields"])]      # anonymous members: the leaves' own names
+        first = names[0]
+        last = names[-1]
+        ST = lambda: s_ctype(ffi, s, slot)
+        PT = lambda: p_ctype(ffi, s, slot)
+        us = [("sizeof", lambda: ffi.sizeof(ST())),
+              ("new", lambda: ffi.new(PT())),
+              ("offsetof-first", lambda: ffi.offsetof(ST(), first)),
+              ("offsetof-last", lambda: ffi.offsetof(ST(), last)),
+              ("fields", lambda: ST().fields),
+              ("cast-pointer-field", lambda: getattr(ffi.cast(PT(), env.caddr("addr_gs_" + key)), first)),
+              ("alignof", lambda: ffi.alignof(ST()))]
+        if not vp:
+
+            def new_array():
+                # allocating 'T[2]' needs the total size only; cffi takes it from the compiler without looking
+                # at the fields.  Required: raise, or allocate 2 x gcc's size and refuse every look inside.
+                arr = ffi.new(T + "[2]")
+                if ffi.sizeof(arr) != 2 * env.facts["S"][key][0]:
+                    return None
+                return _all_raise(arr[1], names)
+            us.append(("new-array", new_array))
+            us.append(("from-buffer-field", lambda: getattr(ffi.from_buffer(T + " *", bytearray(512)), first)))
         if slot == 0:
-            if not s.get("novalue"):
+            if not s.get("novalue") and not vp:
                 us.append(("global-field", lambda: getattr(getattr(lib, "gs_" + key), last)))
+                us.append(("addressof-global-field", lambda: getattr(ffi.addressof(lib, "gs_" + key), first)))
             us.append(("pointer-field", lambda: getattr(getattr(lib, "ptr_" + key)(), first)))
+        if slot == 0 and not s.get("novalue") and not vp:
+            # the by-value call wrappers.  A call that only moves the compiler's bytes around never looks at
+            # the cdef's layout and is not required to raise; every look inside what it returned is.
+            ret, take = "ret_" + key, "take_" + key
+            us.append(("byvalue-result-fields", lambda: _all_raise(getattr(lib, ret)(), names)))
+            us.append(("byvalue-argument-dict", lambda: getattr(lib, take)({})))
+
+            def roundtrip():
+                size = env.facts["S"][key][0]
+                addr = env.caddr("addr_gs_" + key)
+                pat = bytes((i * 37 + 11) & 0x7F for i in range(size))
+                ctypes.memmove(addr, pat, size)
+                try:
+                    getattr(lib, take)(getattr(lib, ret)())
+                    now = ctypes.string_at(addr, size)
+                finally:
+                    ctypes.memset(addr, 0, size)
+                for n, (o, z) in sorted(env.facts["F"][key].items()):
+                    if z > 0 and now[o:o + z] != pat[o:o + z]:
+                        return None          # silent, and the C object was not carried over intact
+                return Accept("compiler-layout-roundtrip")
+            us.append(("byvalue-roundtrip", roundtrip))
+
+            def fields_after_call():
+                try:
+                    getattr(lib, ret)()
+                except Exception:
+                    pass
+                return ST().fields
+            us.append(("fields-after-byvalue-call", fields_after_call))
+            for o, fname in outer_kinds(key):
+                OT = U.tname(o)
+                us.append(("outer-sizeof:" + o["tag"], (lambda OT: lambda: ffi.sizeof(OT))(OT)))
+                us.append(("outer-offsetof:" + o["tag"],
+                           (lambda OT, fname: lambda: ffi.offsetof(OT, fname, first))(OT, fname)))
+                us.append(("outer-global-field:" + o["tag"],
+                           (lambda o, fname: lambda: getattr(getattr(getattr(lib, "gs_" + o["tag"]), fname), first))(o, fname)))
         return us
     if kind == "enum":
         e = U.ENUM[key]
@@ -1037,6 +1395,20 @@ def setup(quick):
     return ok, cnt
 
 
+def struct_family(m):
+    """The family of the universe a struct mutant belongs to (evidence counters)."""
+    s = U.STRUCT[m["skind"]]
+    if s.get("via_pointer"):
+        return "family_pointer_typedef"
+    if m.get("dots_kind"):
+        return "family_dots_array"
+    if U.has_anon(s["fields"]):
+        return "family_anonymous_member"
+    if s["tag"] in ("s_bf2", "u_bf"):
+        return "family_bitfield_types"
+    return "family_base"
+
+
 def judge_exact(ctx, m, r, detail_base):
     """The oracle of an exact (no '...') mutant."""
     must = bool(m["changed"])
@@ -1051,13 +1423,29 @@ def judge_exact(ctx, m, r, detail_base):
     silent = [(u, rnd) for u, rnd, ex in outs if ex is None]
     for u, rnd, ex in outs:
         ctx.count("use_outcome_%s_%s" % (cls, ex or "silent"))
+        if must and rnd == 1 and m["item"] == "struct":
+            ctx.count("struct_use_%s_%s" % (u.partition(":")[0], "silent" if ex is None else
+                                            "accepted" if ex.startswith("accepted:") else "raises"))
     if not must and len(silent) != len(outs) and os.environ.get("C12_DEBUG"):
         ctx.log("not required but raises: %s %r" % (m["text"].strip(), sorted({ex for u, rnd, ex in outs if ex})))
+    if m["item"] == "struct":
+        fam = struct_family(m)
+        ctx.count("exact_%s_%s" % (fam, cls))
+        if must and r["build"] == "ok":
+            ctx.count("exact_%s_%s" % (fam, "all_uses_raise" if not silent else "some_use_silent"))
     if must and silent:
         sig = {"kind": "mutant-silent", "item": m["item"]}
         if m["item"] == "struct":
             sig["op"] = m["op"][0]
-            sig["uses"] = "all" if len(silent) == len(outs) else "some"
+            nacc = len([1 for u, rnd, ex in outs if ex is not None and ex.startswith("accepted:")])
+            sig["uses"] = "all" if len(silent) + nacc == len(outs) else "some"
+            if sig["uses"] == "some":
+                which = sorted({u.partition(":")[0] for u, rnd in silent})
+                sig["which"] = "+".join(which) if len(which) <= 3 else "many"
+            if U.has_anon(m["fields"]):
+                # the declaration (as mutated) has an anonymous struct/union member: recompiler.py does not
+                # set _CFFI_F_CHECK_FIELDS for it (audit finding 0)
+                sig["anonymous_member"] = True
         d = dict(detail_base)
         d.update({"silent_uses": silent, "changed": m["changed"]})
         ctx.violation(sig, d)
@@ -1079,6 +1467,11 @@ def run(ctx):
         ctx.count("op_%s" % m["op"][0])
         if m["item"] == "struct":
             ctx.count("struct_slot_%s" % ("named" if split_part(m["part"])[2] == 0 else "typedef_alias"))
+            ctx.count("mutants_%s_%s" % (struct_family(m), m["mode"]))
+            if m.get("inner"):
+                ctx.count("mutants_inside_an_anonymous_member")
+            if U.has_anon(U.STRUCT[m["skind"]]["fields"]) and not U.has_anon(m["fields"]):
+                ctx.count("mutants_that_leave_no_anonymous_member")
     jobs = [[("base",)]] + [[("mut", b)] for b in sorted(batches, key=len, reverse=True)] + [[("mut", s)] for s in solos]
     nbuilds = 0
     evaluated = 0
@@ -1130,7 +1523,10 @@ def run(ctx):
                         continue      # a wrong field *type* may be refused even under '...;'
                     d = dict(db)
                     d["info"] = mr["info"]
-                    ctx.violation({"kind": "partial-not-silent", "item": m["item"], "op": m["op"][0], "at": "build"}, d)
+                    sig = {"kind": "partial-not-silent", "item": m["item"], "op": m["op"][0], "at": "build"}
+                    if m.get("dots_inner_only"):
+                        sig["dots_inner_dimension_only"] = True
+                    ctx.violation(sig, d)
                     continue
                 probs = mr["problems"]
                 raises = [p for p in probs if p[0] == "raises"]
@@ -1139,6 +1535,8 @@ def run(ctx):
                     continue
                 if not probs:
                     ctx.count("partial_silent_and_gcc_layout_" + m["item"])
+                    if m["item"] == "struct":
+                        ctx.count("partial_silent_and_gcc_layout_" + struct_family(m))
                 for what, info in probs:
                     d = dict(db)
                     d.update({"what": what, "info": info})
@@ -1159,16 +1557,27 @@ def run(ctx):
                 "struct kind is declared %d times in the universe -- 'struct tag' and %d typedef aliases -- and its "
                 "mutants are dealt round-robin over these declarations), of every enumerator and every valued integer "
                 "constant (+1, -1, negated, +-2^64 wrap%s), each also under '...'; plus every <=2-field selection of "
-                "the partial structs.  non-trivial = exact mutants for which gcc reports a changed field offset, field "
+                "the partial structs (an anonymous member counts as one field).  Added families: "
+                "6 kinds with anonymous struct/union members (operators also applied inside the member, member "
+                "unwrapped, struct<->union flipped); a struct known only through a pointer typedef (exact operators "
+                "only: cffi refuses '...;' there); the two '[...]' kinds under every <=2-field selection, the item type "
+                "of the open array over %d types, re-spelled ('[...][...]', '[3][...]'), wrong inner dimension, "
+                "and the '[...]' replaced by the right length and +-1; bitfields of _Bool / long long:40 / unsigned "
+                "char / an enum and bitfields in a union; 11 'static const' over 8 integer types; every mismatching "
+                "struct is also used through alignof, T[2], from_buffer and (named declaration) addressof(global), the "
+                "by-value call wrappers and the outer structs that hold it; part 'misc' in the base/unmutated "
+                "comparison.  non-trivial = exact mutants for which gcc reports a changed field offset, field "
                 "size, total size or value (must raise) and all '...' mutants (must be silent with gcc's layout); "
                 "exact mutants that change no checked fact are executed but not required to raise%s" % (
                     "5-type (quick)" if quick else "10-type (full)", U.NALIAS + 1, U.NALIAS,
-                    "; quick: enumerator -1 only where it crosses zero" if quick else "",
+                    "; quick: enumerator -1 only where it crosses zero" if quick else "", len(DOTS_ITEM_TYPES),
                     "; quick: at most %d mutants expected not to compile per struct kind, and retype mutants "
-                    "only without '...'" % QUICK_CE_PER_KIND if quick else ""),
+                    "only without '...'; of the added kinds only %s have such a mutant" % (
+                        QUICK_CE_PER_KIND, "/".join(QUICK_CE_ADDED_KINDS)) if quick else ""),
         "exhaustive": True,
         "bound": {"int_retype_alphabet": len(INT_RETYPES_QUICK if quick else INT_RETYPES_FULL), "module_cap": cap,
-                  "declarations_per_struct_kind": U.NALIAS + 1},
+                  "declarations_per_struct_kind": U.NALIAS + 1, "struct_kinds": len(U.STRUCTS),
+                  "integer_constants": len(U.CONSTS), "universe_names": len(U.declared_names())},
     }
     return ctx.finish(cov, [
         "gcc 12 on this machine is the authority for sizes, offsets and values",
